@@ -40,7 +40,7 @@ def budget(tier):
 
 def essential_labels(tier):
     return ["fam:hybrid", "fam:json", "has_default", "has_default_factory", "has_rename", "renamed_field_with_default", "value_equals_nonzero_default",
-            "field:hybrid", "field:ref", "array_2d", "field_absent", "json_text", "derived_class"]
+            "field:hybrid", "field:ref", "array_2d", "field_absent", "json_text", "derived_class", "rebuilt_on_dirty_memory", "array_default_declared_as_length"]
 
 
 @st.composite
@@ -49,7 +49,7 @@ def cases(draw, tier):
         cfg = hybgen.HCfg(tier)
         h = draw(hybgen.hspecs(cfg))
         value = hybgen.hvalues(draw, h)
-        return {"fam": "hybrid", "h": h, "value": value, "other_ctx": draw(st.booleans()), "via_buffer": draw(st.booleans()), "inherit": draw(st.integers(0, 3)) == 0}
+        return {"fam": "hybrid", "h": h, "value": value, "other_ctx": draw(st.booleans()), "via_buffer": draw(st.booleans()), "inherit": draw(st.integers(0, 3)) == 0, "dirty": draw(st.integers(0, 2)) == 0}
     cfg = tg.Cfg(tier, allow_refs=False, allow_nd=False, allow_orders=False, roots=("struct", "struct", "array"))
     spec = draw(tg.type_specs(cfg))
     value = tg._draw_value(draw, spec, cfg)
@@ -155,7 +155,17 @@ def run_hybrid(case):
     if r:
         return fail(r[0], r[1], r[2], labels)
     ctx = xo.ContextCpu() if case.get("other_ctx") else None
-    back = sut(lambda: hn.cls.from_dict(d, _context=ctx) if ctx is not None else hn.cls.from_dict(d))
+    if case.get("dirty"):
+        # rebuilt on memory that was used before (defaults must be written, not assumed)
+        from vlib import placement as pl
+
+        dbuf = xo.ContextCpu().new_buffer(2048)
+        pl.poison_fill(dbuf)
+        labels.add("rebuilt_on_dirty_memory")
+        back = sut(lambda: hn.cls.from_dict(d, _buffer=dbuf))
+        ctx = None
+    else:
+        back = sut(lambda: hn.cls.from_dict(d, _context=ctx) if ctx is not None else hn.cls.from_dict(d))
     if is_raised(back):
         return fail("from_dict_raised", f"{back}", back.key, labels)
     for how, reader in (("attributes", lambda o: hybgen.hwalk(o, hn)), ("xobject", lambda o: mat.walk(o._xobject, hn.node))):
